@@ -86,10 +86,12 @@ func StylingOp(r *run.Rng, o *Opts) rec.Op {
 			return *o.last // exactly the previous styling call again
 		}
 	case 1:
-		// restate a reset default
-		switch r.Intn(3) {
+		// restate a reset default, or the zero value of the state
+		switch r.Intn(4) {
 		case 0:
 			return rec.Op{K: rec.KSetLOD, F: [6]float32{0, float32(math.Inf(1))}}
+		case 3:
+			return rec.Op{K: rec.KSetLOD, F: [6]float32{0, 0}} // what a zero-value object holds before any Reset
 		case 1:
 			return rec.Op{K: rec.KSetCSel, Sel: 0}
 		default:
